@@ -111,7 +111,47 @@ class MarkovCheck(object):
             for kk in ('ew', 'nw'):      # positive weights only: zero-rate classes are covered by e2/e3
                 if g.get(kk):
                     g[kk] = {a: [w if w > 0 else 0.7 for w in ws] for a, ws in g[kk].items()}
-            c.update({'kind': 'rescale', 'sim': (self.GILL, self.FAST)[k % 2], 'runs': 150 if q else 2500, 'seed': cs, 'ntests': 2 * nres,
+            fam = k % 8
+            if fam in (4, 5, 6):
+                # hubs and very uneven weights: a hub that infects dozens of neighbours during one infectious period, one contact / node
+                # hundreds of times heavier than the others (weighted selection then needs hundreds of proposals)
+                L = r.choice([24, 60, 150] if q else [24, 60, 150, 300])
+                g = {'n': L + 2, 'edges': [[0, i] for i in range(1, L + 2)], 'labels': g['labels'], 'decoy': g.get('decoy', False), 'kind': 'hubstar'}
+                for _ in range(r.randint(0, 4)):
+                    a, b = r.sample(range(1, L + 2), 2)
+                    if [min(a, b), max(a, b)] not in g['edges']:
+                        g['edges'].append([min(a, b), max(a, b)])
+                m_ = len(g['edges'])
+                if fam == 4:
+                    c['wm'] = r.choice(['none', 'node'])          # unweighted contacts: fast_SIR's constant-rate path with a hub
+                    if c['wm'] == 'node':
+                        g['nw'] = {simcase.RW: [r.choice([0.5, 1.0, 2.0]) for _ in range(L + 2)]}
+                    c['tau'], c['gamma'] = r.choice([(0.5, 1.0), (2.0, 0.7), (0.3, 0.5)])
+                else:
+                    heavy = float(r.choice([100, 300]))
+                    ew = [1.0] * m_
+                    ew[r.randrange(L + 1)] = heavy
+                    g['ew'] = {simcase.TW: ew}
+                    c['wm'] = 'edge'
+                    if fam == 6:
+                        nw = [1.0] * (L + 2)
+                        nw[r.randrange(1, L + 2)] = heavy
+                        g['nw'] = {simcase.RW: nw}
+                        c['wm'] = 'both'
+                    c['tau'], c['gamma'] = r.choice([(3.0 / heavy, 1.0), (6.0 / heavy, 0.5)])
+                c['graph'] = g
+                c['I0'], c['R0'] = [0], ([r.randrange(1, L + 2)] if (self.MODEL == 'SIR' and r.random() < 0.3) else [])
+            elif fam == 7:
+                # bridge: the only infectious-susceptible contact is a very heavy one; once it has fired the candidate list is empty and
+                # is refilled with light contacts (a stale rejection bound would make every later selection very long)
+                L = r.randint(6, 14)
+                g = {'n': L + 2, 'edges': [[0, 1]] + [[1, i] for i in range(2, L + 2)], 'labels': g['labels'], 'decoy': g.get('decoy', False), 'kind': 'bridge'}
+                g['ew'] = {simcase.TW: [1000.0] + [r.choice([0.5, 1.0, 2.0]) for _ in range(L)]}
+                c['wm'] = 'edge'
+                c['graph'] = g
+                c['tau'], c['gamma'] = 1.0, r.choice([0.3, 1.0])
+                c['I0'], c['R0'] = [0], []
+            c.update({'kind': 'rescale', 'sim': (self.GILL, self.FAST)[(k // 8 + k) % 2], 'runs': 150 if q else 2500, 'seed': cs, 'ntests': 3 * nres,
                       'tmax': 'inf' if self.MODEL == 'SIR' else c['tmin'] + r.choice([1.5, 3.0])})
             cases.append(c)
         return cases
@@ -391,6 +431,7 @@ class MarkovCheck(object):
             kw['initial_recovereds'] = list(R0)
         us = []
         dev, var = 0.0, 0.0
+        wdev, wvar, nwho = 0.0, 0.0, 0
         nev = 0
         rr = random.Random(case['seed'] + 3)
         simcase.seed_all(case['seed'])
@@ -408,8 +449,28 @@ class MarkovCheck(object):
                 inf_rate = sum(tau * ew(u, v) for u in I0 for v in G.neighbors(u) if status[v] == 'S')
                 t = tmin
                 maxlam = rec_rate + inf_rate
+                press = {}
+                for u in I0:
+                    for x in G.neighbors(u):
+                        if status[x] == 'S':
+                            press[x] = press.get(x, 0.0) + tau * ew(u, x)
                 for (et, v, old, new) in ev:
                     lam = rec_rate + inf_rate
+                    # who: given that the event is an infection (recovery), the node is v with probability pressure(v)/sum (rate(v)/sum);
+                    # test statistic: indicator that the node with the largest pressure (rate) was the one
+                    if new == 'I':
+                        cand = {x: w for x, w in press.items() if status[x] == 'S' and w > 0}
+                    else:
+                        cand = {x: gamma * nw(x) for x in nodes if status[x] == 'I'}
+                    if len(cand) >= 2:
+                        mx = max(cand.values())
+                        top = [x for x, w in cand.items() if w >= mx * (1 - 1e-12)]
+                        tot = sum(cand.values())
+                        if len(top) < len(cand) and tot > 0:
+                            pt = sum(cand[x] for x in top) / tot
+                            wdev += (1.0 if v in top else 0.0) - pt
+                            wvar += pt * (1 - pt)
+                            nwho += 1
                     if lam <= 0:
                         viol(res, '%s|%s|event_after_total_rate_zero' % (case['sim'], case['wm']), {'t': et})
                         return
@@ -423,10 +484,12 @@ class MarkovCheck(object):
                     # update
                     if new == 'I':
                         status[v] = 'I'
+                        press.pop(v, None)
                         rec_rate += gamma * nw(v)
                         for x in G.neighbors(v):
                             if status[x] == 'S':
                                 inf_rate += tau * ew(v, x)
+                                press[x] = press.get(x, 0.0) + tau * ew(v, x)
                             elif status[x] == 'I' and x != v:
                                 inf_rate -= tau * ew(x, v)
                     else:
@@ -435,8 +498,11 @@ class MarkovCheck(object):
                         for x in G.neighbors(v):
                             if status[x] == 'S':
                                 inf_rate -= tau * ew(v, x)
+                                press[x] = sum(tau * ew(y, x) for y in G.neighbors(x) if status[y] == 'I')
                             elif status[x] == 'I' and new == 'S':
                                 inf_rate += tau * ew(x, v)
+                        if new == 'S':
+                            press[v] = sum(tau * ew(y, v) for y in G.neighbors(v) if status[y] == 'I')
                     maxlam = max(maxlam, lam)
                     if abs(rec_rate) < 1e-9 * maxlam:     # the harness's own running sums carry rounding residue
                         rec_rate = 0.0
@@ -456,7 +522,13 @@ class MarkovCheck(object):
         alpha = stats.ALPHA_RUN / max(1, case['ntests'])
         ks = stats.ks_uniform(us)
         zt = stats.ztest(dev, var)
-        bump(res, 'rescale_tests', 2)
+        wt = stats.ztest(wdev, wvar)
+        bump(res, 'rescale_who_events', nwho)
+        if case['graph'].get('kind') in ('hubstar', 'bridge'):
+            bump(res, 'rescale_uneven_or_hub_cases')
+        if nwho and wt['p'] < alpha:
+            viol(res, '%s|%s|which_node_probability' % (case['sim'], case['wm']), {'z': wt, 'events': nwho, 'graph_kind': case['graph'].get('kind'), 'n': case['graph']['n'], 'tau': tau, 'gamma': gamma})
+        bump(res, 'rescale_tests', 3)
         bump(res, 'rescale_intervals', len(us))
         setmax(res, 'rescale_min_neglog10_p', -math.log10(max(min(ks['p'], zt['p']), 1e-300)))
         if ks['p'] < alpha:
